@@ -141,7 +141,7 @@ func (formatter *typeFormatter) formatEnum(def ast.Object) string {
 	buffer.WriteString(formatter.formatClassComments(def.Comments))
 
 	for i, val := range enumType.Values {
-		memberName := tools.UpperSnakeCase(val.Name)
+		memberName := formatEnumMemberName(val.Name)
 		buffer.WriteString(fmt.Sprintf("    %s = %#v", memberName, val.Value))
 
 		if i != len(enumType.Values)-1 {
@@ -256,7 +256,7 @@ func (formatter *typeFormatter) formatEnumValue(enumObj ast.Object, val any) str
 	referredPkg = formatter.importModule(referredPkg, "..models", referredPkg)
 
 	member, _ := enumObj.Type.AsEnum().MemberForValue(val)
-	memberName := tools.UpperSnakeCase(member.Name)
+	memberName := formatEnumMemberName(member.Name)
 
 	if referredPkg == "" {
 		return fmt.Sprintf("%s.%s", enumObj.Name, memberName)
